@@ -1415,6 +1415,15 @@ impl Oracles {
                             }
                             None => String::new(),
                         };
+                        if w.node.has_complete(&x) {
+                            self.violate_k(
+                                w,
+                                "C05",
+                                "paid-invoice-htlc-failed",
+                                key.clone(),
+                                format!("htlc {} for hash {} was failed back ({}) although the invoice has been paid (a part completed): it must be settled from the known preimage", c.hid, rf::hex(&x), rf::hex(m)),
+                            );
+                        }
                         self.violate_k(
                             w,
                             "C02",
